@@ -10,6 +10,7 @@ re-keys the entry of the waiting *task*).  The waiter queue is the arrival-order
 does not take the lock from it (`wakeUpFirst` does nothing while a queued future is done).
 -/
 import Asynkit.Lemmas.C12
+import Asynkit.Lemmas.C12KeyInv6
 
 namespace Asynkit.C12
 open Asynkit.Lock Asynkit.PrioGraph
@@ -66,18 +67,48 @@ theorem arrival_key (s : State) (i k : Nat) :
       key = (s.setTask i { s.tasks i with waitingOn := if (s.tasks i).prio.isSome then some k else none }).eff i := by
   exact ⟨_, by simp [appended], rfl⟩
 
-/-
-Full statement `waiter_key_inv` (not proved):
-  in every execution without cancel/throw/interrupt, for every reachable state `s`, lock `k` and
-  queued waiter `w` whose future is still pending:  w.key = s.eff w.task.
-Proved part: the key is the effective priority on arrival (`arrival_key`), each propagation step
-re-keys to the current effective priority (`propagate_rekeys_to_current_eff`), propagation changes
-neither arrival order nor any effective priority (`arrival_rank_unchanged`).  Missing: that the
-tasks whose effective priority changes when a waiter is added are exactly the blocked owners
-along the chain that `propagate_priority` walks (needs the acyclicity argument of C11 lifted to
-the transition system).  The trace-acceptance stream compares every queued key with the real
-`effective_priority()` after every handle instead.
--/
+/-- **waiter_key_inv** (full).  `ReachableNF N` = reachable by events without cancel / throw /
+    interrupt in which every `acquire k` has `k < N` and `k` above every lock the task already holds
+    (the fixed lock order of the property's quantifier).  In every such state, whatever the programs
+    and the schedule, every queued waiter whose future is still pending is keyed by its *current*
+    effective priority - including priority inherited, directly or through a chain of locks, after
+    it began waiting.  (`2 * N ≤ fuel`: the recursion bound of the model covers the longest chain;
+    the driver uses `2 * (|tasks| + |locks|) + 1`.)  A waiter whose future already has its result
+    has been handed the lock and is no longer re-keyed, by design. -/
+theorem waiter_key_inv {N : Nat} {s : State} (h : ReachableNF N s) (hf : 2 * N ≤ s.fuel) :
+    ∀ k, ∀ w ∈ (s.locks k).waiters, w.fut = .pending → w.key = s.eff w.task :=
+  reachableNF_kinv h hf
+
+/-- ... hence in such executions the hand-over goes to the (current effective priority,
+    arrival)-minimal waiter: nobody queued is strictly more urgent than the receiver, and everybody
+    queued before it is strictly less urgent. -/
+theorem handover_by_effective_priority {N : Nat} {s : State} (h : ReachableNF N s) (hf : 2 * N ≤ s.fuel)
+    (k : Nat) (hd : Waiter) (hno : (s.locks k).waiters.any (·.fut.done) = false)
+    (hh : headW (s.locks k).waiters = some hd) :
+    ((s.wakeUpFirst k).locks k).waiters = setFutOf (s.locks k).waiters hd.task .result ∧
+    (∀ w ∈ (s.locks k).waiters, ¬ (s.eff w.task < s.eff hd.task)) ∧
+    (∃ pre post, (s.locks k).waiters = pre ++ hd :: post ∧ ∀ w ∈ pre, s.eff hd.task < s.eff w.task) := by
+  have hpend : ∀ w ∈ (s.locks k).waiters, w.fut = .pending := by
+    intro w hw
+    have : w.fut.done = false := by
+      have := hno
+      simp only [List.any_eq_false] at this
+      simpa using this w hw
+    cases hf' : w.fut <;> simp_all [Fut.done]
+  have hkey : ∀ w ∈ (s.locks k).waiters, w.key = s.eff w.task :=
+    fun w hw => waiter_key_inv h hf k w hw (hpend w hw)
+  have hhd := headW_mem _ _ hh
+  obtain ⟨h1, h2, pre, post, e, h3⟩ := handover_most_urgent s k hd hno hh
+  refine ⟨h1, fun w hw => ?_, pre, post, e, fun w hw => ?_⟩
+  · rw [← hkey w hw, ← hkey hd hhd]; exact h2 w hw
+  · have hw' : w ∈ (s.locks k).waiters := by rw [e]; exact List.mem_append_left _ hw
+    rw [← hkey w hw', ← hkey hd hhd]; exact h3 w hw
+
+/- With cancellation the invariant is false by design for a waiter in flight (woken or faulted but
+   not yet run: `propagate_priority` stops at runnable tasks), which is why it is stated for
+   fault-free executions; `never_overtaken` and `handover_most_urgent` hold for all executions. -/
+
+/-- old name, kept: one propagation step -/
 theorem waiter_key_inv_partial (s : State) (f k i : Nat) :
     (∀ w ∈ ((propL s (f + 1) k i).locks k).waiters, w.task = i → w.key = (propL s (f + 1) k i).eff i) ∧
     (∀ k', ((propL s (f + 1) k i).locks k').waiters.map (·.task) = (s.locks k').waiters.map (·.task)) := by
@@ -103,5 +134,44 @@ theorem never_overtaken (ws : List Waiter) (v w : Waiter) (hv : headW ws = some 
 /-! non-vacuity: three waiters (keys 0, -5 after re-keying, 0): the second one is the head -/
 example : (headW [⟨1, 0, .pending⟩, ⟨2, -5, .pending⟩, ⟨3, 0, .pending⟩]).map (·.task) = some 2 := by decide
 example : (headW [⟨1, 0, .pending⟩, ⟨2, 0, .pending⟩]).map (·.task) = some 1 := by decide
+
+/-! non-vacuity of `waiter_key_inv`: T0(5) holds L1; T1(2) takes L0 and queues on L1 with key 2;
+    T2(-5) queues on L0 - a fault-free, ordered execution after which T1's key in L1 is -5. -/
+def runOK (N : Nat) : State → List Ev → Bool
+  | _, [] => true
+  | s, e :: es => e.enabled s && Ev.orderly N s e && runOK N (s.apply e) es
+
+theorem runOK_reachable {N : Nat} : ∀ (es : List Ev) (s : State), ReachableNF N s → runOK N s es = true →
+    ReachableNF N (es.foldl State.apply s)
+  | [], _, h, _ => h
+  | e :: es, s, h, ok => by
+    simp only [runOK, Bool.and_eq_true] at ok
+    exact runOK_reachable es _ (ReachableNF.step e h ok.1.1 ok.1.2) ok.2
+
+def demoInit : State :=
+  { tasks := fun i => if i = 0 then { prio := some 5, status := .ready false }
+                      else if i = 1 then { prio := some 2, status := .ready false }
+                      else if i = 2 then { prio := some (-5), status := .ready false } else {},
+    fuel := 6 }
+
+def demoEvents : List Ev :=
+  [.resume 0, .acquire 1, .sleep, .resume 1, .acquire 0, .acquire 1, .resume 2, .acquire 0]
+
+theorem demoInit_initial : Initial demoInit := by
+  refine ⟨rfl, fun _ => rfl, fun i => ?_⟩
+  simp only [demoInit]
+  by_cases h0 : i = 0
+  · simp [h0]
+  · by_cases h1 : i = 1
+    · simp [h1]
+    · by_cases h2 : i = 2
+      · simp [h2]
+      · simp [h0, h1, h2]
+
+example : ReachableNF 2 (demoEvents.foldl State.apply demoInit) ∧
+    ((demoEvents.foldl State.apply demoInit).locks 1).waiters.map (fun w => (w.task, w.key, w.fut)) =
+      [(1, -5, .pending)] ∧
+    (demoEvents.foldl State.apply demoInit).eff 1 = -5 :=
+  ⟨runOK_reachable demoEvents demoInit (ReachableNF.init demoInit_initial) (by decide), by decide, by decide⟩
 
 end Asynkit.C12
